@@ -121,11 +121,11 @@ func plans(id, tier string) (Plan, bool) {
 			{Pkg: pkgV2, Harness: "c06_history", Shards: 2},
 			{Pkg: pkgV2, Harness: "c06_match", Params: map[bool]string{false: "docs=431;positions=1", true: "docs=431;positions=12"}[th], Shards: 16},
 			// CRLF line ends in text and edit (no word splits: a hyphen before CR LF is not a line-end hyphen)
-			{Pkg: pkgV2, Harness: "c06_match", Params: map[bool]string{false: "eol=crlf;docs=431;positions=1;kinds=notice,date,marker", true: "eol=crlf;docs=431;positions=4;kinds=notice,date,marker,spelling,https"}[th], Shards: 16},
+			{Pkg: pkgV2, Harness: "c06_match", Params: map[bool]string{false: "eol=crlf;docs=150;positions=1;kinds=notice,date,marker", true: "eol=crlf;docs=431;positions=4;kinds=notice,date,marker,spelling,https"}[th], Shards: 16},
 			// the document behind 4 000 / 16 000 / 65 000 pairwise different words
 			{Pkg: pkgV2, Harness: "c06_match", Params: map[bool]string{false: "prefix=distinct;docs=3;maxbytes=1500;positions=2;kinds=notice,marker", true: "prefix=distinct;docs=8;maxbytes=3000;positions=3;kinds=notice,date,marker,spelling"}[th], Shards: 16},
 			// the same documents with every paragraph on one line (lines of hundreds of words)
-			{Pkg: pkgV2, Harness: "c06_match", Params: map[bool]string{false: "layout=unwrap;docs=431;positions=1;kinds=marker,split,notice", true: "layout=unwrap;docs=431;positions=6"}[th], Shards: 16},
+			{Pkg: pkgV2, Harness: "c06_match", Params: map[bool]string{false: "layout=unwrap;docs=200;positions=1;kinds=marker,split,notice", true: "layout=unwrap;docs=431;positions=6"}[th], Shards: 16},
 			{Pkg: pkgV2, Harness: "c06_match", Params: map[bool]string{false: "docs=4;maxbytes=1200;positions=0;kinds=notice,marker,split,splitnotice", true: "docs=60;maxbytes=6000;positions=0"}[th], Shards: 16},
 		}}, true
 	case "C07":
